@@ -50,7 +50,35 @@ def text_inputs(run):
             out.append("".join((l + ("\r\n" if rng.random() < 0.5 else "\n")) for l in t.split("\n")))
     for _ in range(300 if run.tier == "quick" else 3000):
         out.append("".join(rng.choice(TOKEN_ALPHABET) for _ in range(rng.randint(4, 30))))
+    out += nesting_texts(rng, 60 if run.tier == "quick" else 600)
     return out, n_exh
+
+
+OPENERS = ["f(", "(", "[", "g(1, ", "{ ", "if c { ", "match x { 0 => ", "|y| ", "S { a: ", "(1, ", "-", "!", "h(a)(", "a + ", "vec_push(v, ", "let z = "]
+CLOSERS = {"f(": ")", "(": ")", "[": "]", "g(1, ": ")", "{ ": " }", "if c { ": " } else { 0 }", "match x { 0 => ": ", _ => 1 }", "|y| ": "", "S { a: ": " }", "(1, ": ")", "-": "", "!": "", "h(a)(": ")", "a + ": "", "vec_push(v, ": ")", "let z = ": ""}
+STOPPERS = [";", "}", "let q = 1;", ")", "]", "=>", ",", "fn", "struct S { a: int32 }", "\n}\nfn next() { 1 }\n", "else", "\\\\ml\n", "\"str", "'"]
+
+
+def nesting_texts(rng, n):
+    """deeply nested expressions, complete and unfinished (what an editor sees before the closing brackets are typed),
+    followed by a token the parser refuses to skip and by more items: the tree must still cover every byte"""
+    out = []
+    tail = "\nfn after_a() -> int32 { 1 }\nfn after_b(x: int32) -> int32 { x + 2 }\n"
+    for d in (5, 13, 26, 27, 40, 51, 52, 64, 100, 130, 257, 300):
+        for op in ("f(", "[", "(", "g(1, ", "{ ", "S { a: "):
+            body = op * d + "1"
+            out.append("fn main() { " + body + CLOSERS[op] * d + " }" + tail)          # complete
+            out.append("fn main() { " + body + tail)                                   # nothing closed
+            out.append("fn main() { let r = " + body + ";\n    let s = 2;\n}" + tail)  # stopped by ;
+            out.append("fn main() { " + body + CLOSERS[op] * (d // 2) + " }" + tail)   # half closed
+    for _ in range(n):
+        d = rng.choice([3, 8, 14, 20, 27, 35, 52, 70, 120, 260])
+        ops = [rng.choice(OPENERS) for _ in range(d)]
+        body = "".join(ops) + rng.choice(["1", "x", '"s"', "", "f()"])
+        closed = rng.choice([0, 0, d // 3, d // 2, d - 1, d])
+        close = "".join(CLOSERS[o] for o in reversed(ops[d - closed :])) if closed else ""
+        out.append("fn main() { " + body + close + rng.choice(STOPPERS) + rng.choice(["", " }", tail, " }" + tail]))
+    return out
 
 
 def is_boundary(b, i):
